@@ -101,8 +101,9 @@ def run(ctx):
                 n_c += 1
                 ok = any(b.dominates(x, ci) for x in pdata) and any(b.dominates(x, ci) for x in pmeta)
                 ctx.check("C15-c", "%s#clear_wal-after-persist" % fkey(root), ok, "clear_wal is dominated by persist_data and persist_metadata",
-                          "the WAL is cleared on a path where the data or the applied index has not been persisted first: a crash right after "
-                          "loses the entries that were only in the WAL while Raft believes them applied", loc(b, ci))
+                          "the WAL is cleared on a path where the data or the applied index has not been persisted first: a crash between the clear "
+                          "and the missing persist leaves data and applied index out of step with nothing left to replay (metadata ahead of "
+                          "data: entries lost; data ahead of metadata: entries re-applied)", loc(b, ci))
     ctx.floor("C15-c", n_c, 2, "clear_wal sites paired with persists (checkpoint, apply_snapshot_from_file)")
 
     # ---------------------------------------------------------------- C15-d restart seeds from last_applied()
